@@ -79,6 +79,7 @@ class World:
         self.have_listener = False
         self.have_udp_target = False
         self.nassoc = 0
+        self.relay_base = 2048 if rng.random() < 0.8 else rng.choice([2100, 5301, 40000])
 
     def stream(self):
         k = self.nstream; self.nstream += 1; return k
@@ -89,6 +90,7 @@ class World:
     def proxy(self):
         extra = ""
         if self.flags: extra += " flags=%d" % self.flags
+        if self.relay_base != 2048: extra += " bind_start=%d" % self.relay_base
         self.P.do("top", "k0.new n1 port=%d ver=%d%s" % (PROXY_PORT, self.ver, extra))
 
     def listener(self, reply_total=0, close_after=False, port=TPORT, naccept=3):
@@ -332,8 +334,8 @@ def add_peers(W, kind, reply_total=None):
     if cmd == 2 and outcome == "ok":
         third_party(W, BINDPORT + W.nassoc, rng.choice([3000000000, 3500000000]), rng.choice([0, 10, 3000]))
     if cmd == 3:
-        if not W.have_udp_target: W.udp_target(echo=rng.choice([1, 2, 4]))
-        relay_port = 2048 + W.nassoc_udp if hasattr(W, "nassoc_udp") else 2048
+        if not W.have_udp_target: W.udp_target(echo=rng.choice([1, 2, 4]), relay_port=W.relay_base)
+        relay_port = W.relay_base + getattr(W, "nassoc_udp", 0)
         W.nassoc_udp = getattr(W, "nassoc_udp", 0) + 1
         dg = []
         for _ in range(rng.choice([1, 2, 4])):
